@@ -238,6 +238,106 @@ def replay_path(args):
     return []
 
 
+def random_history(args):
+    """A random history beyond the bounds (more handles, longer, more data), driven by a small
+    mirror of the enabling conditions only (which handles exist, which scopes are open)."""
+    import random  # noqa: PLC0415
+
+    seed, prop, datalen, ukind = args
+    rnd = random.Random(seed)
+    L = tm.load_lib()
+    s = HSys(L, datalen, ukind)
+    kinds, pars, scopes = {}, {}, []     # handle id -> kind / parent; open scopes (innermost last)
+    ev = []
+    for _ in range(rnd.randint(6, 14)):
+        nh = len(kinds)
+        opts = []
+        if nh < 6:
+            if prop == "C07" or rnd.random() < 0.4:
+                opts.append(("borrow", rnd.randint(0, nh)))
+            if prop == "C08" and (s.counts()["uc"] == 0 or scopes):
+                p_ = scopes[-1] if scopes else rnd.choice([0] + [h for h in kinds if kinds[h] == "borrow"])
+                opts.append(("scope", p_))
+        opts.append(("next", rnd.randint(0, nh)))
+        if nh:
+            h = rnd.randint(1, nh)
+            opts += [("aclose", h), ("tool", h), ("next", h)]
+            if ukind == "send" and pars[h] == 0:
+                opts.append(("send", h))
+        if scopes:
+            opts.append(("exit", scopes[-1]))
+        op, x = rnd.choice(opts)
+        rec = {"op": op, "h": 0, "p": 0, "j": 0, "over": 0, "how": "-", "item": 0}
+        if op in ("borrow", "scope"):
+            a = [op, nh + 1, x, "-"]
+            kinds[nh + 1], pars[nh + 1] = op, x
+            rec["p"] = x
+            if op == "scope":
+                scopes.append(nh + 1)
+        elif op == "next":
+            a = ["next", x, 0, "-"]
+            rec["h"] = x
+        elif op == "aclose":
+            a = ["aclose", x, 0, "-"]
+            rec["h"] = x
+        elif op == "send":
+            a = ["send", x, 0, "-"]
+            rec["h"] = x
+        elif op == "tool":
+            j, which = rnd.randint(0, 3), rnd.choice(["islice", "zip"])
+            a = ["tool", x, j, which]
+            rec.update(h=x, j=j, over=0 if which == "islice" else 1)
+        else:
+            how = rnd.choice(["normal", "raise", "cancel"])
+            a = ["exit", x, 0, how]
+            rec["how"] = how
+            scopes.pop()
+        try:
+            r = s.apply(a)
+        except Exception as ex:  # noqa: BLE001
+            return {"cfg": {"datalen": datalen, "underlying": ukind}, "ev": ev, "error": f"{a}: {ex!r}"}
+        if r[0] == "raised":
+            return {"cfg": {"datalen": datalen, "underlying": ukind}, "ev": ev, "error": f"{a}: {r[1]!r}"}
+        if op in ("next", "send"):
+            rec["item"] = r[1]
+        c = s.counts()
+        rec.update(up=c["up"], uc=c["uc"], us=-1 if ukind == "agen" else c["us"])
+        if ukind == "agen" and s.usrc.state == "exhausted":
+            rec["uc"] = -1
+        ev.append(rec)
+    return {"cfg": {"datalen": datalen, "underlying": ukind}, "ev": ev, "error": None}
+
+
+def beyond_bounds(prop, tier, seed, v):
+    import random  # noqa: PLC0415
+    from .tracecheck import validate  # noqa: PLC0415
+
+    rnd = random.Random(seed)
+    n = 400 if tier == "quick" else 8000
+    name = "borrow" if prop == "C07" else "scoped_iter"
+    stats = {"traces": 0, "events": 0, "states": 0, "wall": 0.0, "runs": 0}
+    for datalen in (3, 5):
+        jobs = [(seed * 48271 % (2 ** 31) + i + 1000 * datalen, prop, datalen, rnd.choice(["cls", "cls", "send"])) for i in range(n // 2)]
+        with mp.Pool(min(16, os.cpu_count() or 4)) as pool:
+            hs = pool.map(random_history, jobs, chunksize=32)
+        for h in hs:
+            if h["error"]:
+                v.violation(f"{prop}/{name}/operation-raises", {"engine": "handles", "mode": "random", "cfg": h["cfg"], "observed": h["error"], "history": h["ev"][-5:]})
+        hs = [h for h in hs if not h["error"]]
+        const = cfg_text(datalen, 8, 1000, True, True, True, edges=False)
+        const = const[: const.index("INIT Init")]
+        rejected, st = validate("HandlesTrace", [{"cfg": h["cfg"], "ev": h["ev"]} for h in hs], extra_cfg=const, spec="Spec2")
+        for k in stats:
+            stats[k] += st[k]
+        for idx, matched in rejected.items():
+            h = hs[idx]
+            bad = h["ev"][matched] if matched < len(h["ev"]) else {}
+            v.violation(f"{prop}/{name}/trace-rejected-at-{bad.get('op')}",
+                        {"engine": "handles", "mode": "trace", "spec": "HandlesTrace", "cfg": h["cfg"], "step": matched,
+                         "matched_prefix": h["ev"][max(0, matched - 5): matched], "rejected_event": bad})
+    return stats
+
+
 def check(prop, tier, seed, into=None):
     v = into or Verdict(prop, tier, seed)
     tot = {"states": 0, "transitions": 0, "paths": 0, "replays": 0}
@@ -256,11 +356,13 @@ def check(prop, tier, seed, into=None):
         tot["replays"] += len(jobs)
         if paths:
             v.sample({"underlying": ukinds, "history": [e["a"] for e in paths[len(paths) // 2]]})
+    tstats = beyond_bounds(prop, tier, seed, v) if into is None else {}
     v.assumptions += ["tools that close their input are represented by islice (takes exactly j) and zip (pulls one more than it yields)",
                       "the underlying iterator is an instrumented class-based iterator or async generator with aclose"]
     return v.finish({
         "states": tot["states"], "transitions": tot["transitions"], "traces_validated_against_impl": tot["replays"],
         "edge_cover_paths": tot["paths"], "exhaustive": True, "evaluations": tot["replays"], "distinct_nontrivial": tot["paths"],
+        "random_histories_validated_by_TLC": tstats,
         "rule": "one replay per transition of the Handles state graph and underlying kind (shortest history + that operation + probes of every ended handle)",
         "checker_cmd": "tlc spec/Handles.tla",
     })
